@@ -59,6 +59,7 @@ def tasks(tier, seed):
         for g in W:
             out.append({'fam': 'ws', 'prefix': f + g})
     out.append({'fam': 'ws_short'})
+    out.append({'fam': 'long'})
     return out
 
 
@@ -377,6 +378,33 @@ def run_text(text, probes, acc):
         acc.sample({'hist': h, 'meth': 'split', 'args': ['b', -1], 'twin': False})
 
 
+def run_long(text, probes, acc):
+    seed = acc.seed
+    R = explore.roles(seed)
+    L = len(text)
+    hs = [[['plain', text], ['apply', R['R'], L - 3, L - 1, True], ['apply', R['W'], L - 2, L, True]],
+          [['plain', text], ['apply', R['R'], 0, L, True], ['apply', R['B'], L - 2, L - 1, True]],
+          [['plain', text], ['apply', R['W'], 299, L - 1, True], ['apply', R['W'], 0, L, True]]]
+    for h in hs:
+        v = build(h)
+        t, cells = model.alpha_codes(v)
+        acc.state(model.canon_hash(v))
+        acc.evaluations += 1
+        for meth, args in probes:
+            for twin in ((False, True) if meth != 'assign' else (False,)):
+                acc.transitions += 1
+                case = {'hist': h, 'meth': meth, 'args': args, 'twin': twin}
+                acc.current = case
+                bad = check_probe(h, t, cells, meth, args, seed, twin)
+                if bad is None:
+                    continue
+                if not bad:
+                    acc.validated += 1
+                for clause, detail in bad:
+                    acc.violation(clause, case, detail[:600], sig=clause + ':' + meth + ':long')
+        acc.nontriv(model.chash((t, tuple(cells))))
+
+
 def run_task(task, acc):
     b = bounds(env.tier())
     fam = task['fam']
@@ -390,6 +418,16 @@ def run_task(task, acc):
         for rest in strings(W, 0, b['ws_len'] - 2):
             t = task['prefix'] + rest
             run_text(t, list(probes_ws(t)), acc)
+    elif fam == 'long':
+        # pieces at offsets beyond 256: a long unformatted prefix in front of short texts
+        pre = 'y' * 300
+        for t in ('a-b', '-ab-', 'a--b', 'ab'):
+            text = pre + t
+            probes = [('split', ['-', -1]), ('split', ['-', 1]), ('rsplit', ['-', 1]), ('partition', ['-']), ('rpartition', ['-']),
+                      ('removeprefix', [pre]), ('removesuffix', [t[-1:]]), ('strip', ['y']), ('lstrip', ['y']), ('rstrip', ['b-']),
+                      ('replace', ['-', 'zz', -1]), ('replace', ['-', ['styled', 'one'], 1]), ('replace', ['y' * 300, '', -1]),
+                      ('assign', [text + 'Q']), ('assign', [text[:-1]]), ('upper', [])]
+            run_long(text, probes, acc)
     else:
         for t in strings([' ', '\n', '\t', 'a', '\x85'], 0, 1):
             run_text(t, list(probes_ws(t)), acc)
